@@ -1,8 +1,184 @@
 package main
 
-// F-shape facts: structural AST patterns, each with a committed default used when the pattern is
-// absent (reported as degraded, never an alarm by itself).
+import (
+	"go/ast"
+	"strings"
+)
+
+// F-shape facts: structural AST patterns. A fact is emitted only when its anchor (the function) is
+// found; otherwise the committed default of facts.baseline.lean is used and the fact is reported as
+// degraded (never an alarm by itself). A fact found with a different value changes the regenerated
+// model, and the theorems are re-checked against it.
+
+func findFunc(p *pkgInfo, recv, name string) *ast.FuncDecl {
+	for _, fn := range sortedKeys(p.files) {
+		for _, d := range p.files[fn].Decls {
+			fd, ok := d.(*ast.FuncDecl)
+			if !ok || fd.Name.Name != name || fd.Body == nil {
+				continue
+			}
+			if recv == "" && fd.Recv == nil {
+				return fd
+			}
+			if recv != "" && fd.Recv != nil && len(fd.Recv.List) == 1 && strings.Contains(exprString(fd.Recv.List[0].Type), recv) {
+				return fd
+			}
+		}
+	}
+	return nil
+}
+
+func exprString(e ast.Expr) string {
+	switch t := e.(type) {
+	case *ast.Ident:
+		return t.Name
+	case *ast.StarExpr:
+		return "*" + exprString(t.X)
+	case *ast.SelectorExpr:
+		return exprString(t.X) + "." + t.Sel.Name
+	case *ast.IndexExpr:
+		return exprString(t.X) + "[" + exprString(t.Index) + "]"
+	case *ast.CallExpr:
+		return exprString(t.Fun) + "()"
+	case *ast.UnaryExpr:
+		return t.Op.String() + exprString(t.X)
+	case *ast.ParenExpr:
+		return "(" + exprString(t.X) + ")"
+	case *ast.BinaryExpr:
+		return exprString(t.X) + t.Op.String() + exprString(t.Y)
+	}
+	return "?"
+}
+
+// mentions reports whether the node contains a selector or identifier with the given name.
+func mentions(n ast.Node, name string) bool {
+	found := false
+	ast.Inspect(n, func(x ast.Node) bool {
+		switch t := x.(type) {
+		case *ast.SelectorExpr:
+			if t.Sel.Name == name {
+				found = true
+			}
+		case *ast.Ident:
+			if t.Name == name {
+				found = true
+			}
+		}
+		return !found
+	})
+	return found
+}
+
+// testsAllowWrite: the condition mentions AllowWrite itself, or calls a function/method of the package
+// whose body mentions it (a guard moved into a helper is still the guard).
+func testsAllowWrite(p *pkgInfo, cond ast.Expr) bool {
+	if mentions(cond, "AllowWrite") {
+		return true
+	}
+	hit := false
+	ast.Inspect(cond, func(x ast.Node) bool {
+		if c, ok := x.(*ast.CallExpr); ok {
+			name := ""
+			switch f := c.Fun.(type) {
+			case *ast.Ident:
+				name = f.Name
+			case *ast.SelectorExpr:
+				name = f.Sel.Name
+			}
+			for _, fn := range sortedKeys(p.files) {
+				for _, d := range p.files[fn].Decls {
+					if fd, ok := d.(*ast.FuncDecl); ok && fd.Name.Name == name && fd.Body != nil && mentions(fd.Body, "AllowWrite") {
+						hit = true
+					}
+				}
+			}
+		}
+		return !hit
+	})
+	return hit
+}
+
+func endsWithReturn(b *ast.BlockStmt) bool {
+	if len(b.List) == 0 {
+		return false
+	}
+	_, ok := b.List[len(b.List)-1].(*ast.ReturnStmt)
+	return ok
+}
+
+// writeGuardFirst: among the top-level statements of the handler, an `if <tests AllowWrite> { ...; return }`
+// comes before any statement that touches the file system (h.Fs) or the connection's write file.
+func writeGuardFirst(p *pkgInfo, fd *ast.FuncDecl) bool {
+	for _, st := range fd.Body.List {
+		if ifs, ok := st.(*ast.IfStmt); ok && ifs.Init == nil && testsAllowWrite(p, ifs.Cond) && endsWithReturn(ifs.Body) {
+			return true
+		}
+		if mentions(st, "Fs") || mentions(st, "WOFile") {
+			return false
+		}
+	}
+	return false
+}
 
 func shapes(repo string, pkgs []*pkgInfo, em *emitter) {
 	em.sb.WriteString("/-! ### F-shape -/\n")
+	byAlias := map[string]*pkgInfo{}
+	for _, p := range pkgs {
+		byAlias[p.alias] = p
+	}
+	// 1. every mutating handler refuses before it touches anything unless writing was enabled
+	if h := byAlias["handler"]; h != nil {
+		for _, name := range []string{"HandleCreateFile", "HandleWriteFile", "HandleDeleteFile", "HandleMkdir", "HandleRmdir"} {
+			if fd := findFunc(h, "Handler", name); fd != nil {
+				em.boolean("handler_guardFirst_"+name, writeGuardFirst(h, fd))
+			} else {
+				em.degraded = append(em.degraded, "handler_guardFirst_"+name)
+			}
+		}
+	}
+	// 2. the read deadline is armed inside the request loop of serveConn (once per request), not once per connection
+	if s := byAlias["server"]; s != nil {
+		if fd := findFunc(s, "Server", "serveConn"); fd != nil {
+			inLoop, anywhere := false, false
+			var walk func(n ast.Node, loop bool)
+			walk = func(n ast.Node, loop bool) {
+				ast.Inspect(n, func(x ast.Node) bool {
+					switch t := x.(type) {
+					case *ast.ForStmt:
+						walk(t.Body, true)
+						return false
+					case *ast.RangeStmt:
+						walk(t.Body, true)
+						return false
+					case *ast.CallExpr:
+						if strings.Contains(exprString(t.Fun), "ReadDeadline") {
+							anywhere = true
+							if loop {
+								inLoop = true
+							}
+						}
+					}
+					return true
+				})
+			}
+			walk(fd.Body, false)
+			if anywhere {
+				em.boolean("server_armInLoop", inLoop)
+			} else {
+				em.degraded = append(em.degraded, "server_armInLoop")
+			}
+			// 3. the connection itself is closed by an unconditional deferred call (whatever closing the state reports)
+			uncond := false
+			for _, st := range fd.Body.List {
+				if d, ok := st.(*ast.DeferStmt); ok {
+					if sel, ok := d.Call.Fun.(*ast.SelectorExpr); ok && sel.Sel.Name == "Close" && exprString(sel.X) == "conn" {
+						uncond = true
+					}
+				}
+			}
+			em.boolean("server_connCloseDeferred", uncond)
+		} else {
+			em.degraded = append(em.degraded, "server_armInLoop", "server_connCloseDeferred")
+		}
+	}
 }
